@@ -15,7 +15,7 @@ RULE = ("correlation A: host call in {none, cudaLaunchKernel, cudaLaunchKernelEx
         "a stream} x launch duration {1,3} x activity start - launch end in {-1,0,2} x activity duration {0,1,3}; "
         "correlation B: one of 4 fixed background patterns; optional uncorrelated extras (launch call without "
         "correlation id + GPU annotation); a magnitude family (raw timestamps/durations near the int8/int16/int32 "
-        "boundaries); x include_memory_events {T,F} x ranks {None,[0],[1],[0,1],[1,0]} with a "
+        "boundaries); a steps family (2-3 profiler steps, a launch call of a second host thread at/around/across the start of the trailing step, which the loader trims); x include_memory_events {T,F} x ranks {None,[0],[1],[0,1],[1,0]} with a "
         "second rank whose non-launch pairs reuse the first rank's correlation ids. worlds with background pattern 1 run a critical path analysis of a one-call window on the same object first. non-trivial = at least one expected row and at least one excluded call or activity")
 ASSUMPTIONS = [
     "well-formed trace; a launch call is a runtime call named cudaLaunchKernel, cudaLaunchKernelExC, "
@@ -70,6 +70,9 @@ def worlds(tier: str, stats: Dict[str, Any]) -> Iterator[Any]:
     for w in magnitude_worlds():
         stats["transitions"] += 1
         yield w
+    for w in steps_worlds():
+        stats["transitions"] += 1
+        yield w
     for h, d in itertools.product(HOSTS, DEVS):
         timing = list(itertools.product(b["dl"], b["delta"], b["ddur"])) if (h and d) else [(1, 0, 1)]
         for (dl, delta, ddur) in timing:
@@ -91,6 +94,27 @@ def worlds(tier: str, stats: Dict[str, Any]) -> Iterator[Any]:
                         stats["transitions"] += 1
                         yield dict(host=h, dev=d, timing=[dl, delta, ddur], bg=bg, extras=extras, file_order="reversed",
                                    events=evs[:1] + evs[1:][::-1])
+
+
+def steps_worlds():
+    """two or three profiler steps (the loader drops the trailing one): launch calls of a second host thread running
+    across the start of the last step; exactly the pairs whose call starts before that step remain linked pairs"""
+    for nsteps in (2, 3):
+        last = 40 * (nsteps - 1)
+        for off in (-5, -2, -1, 0, 1):
+            for ldur in (1, 4):
+                evs = [kineto.cpu_op("aten::root", E0 - 2, 1, ext=0)]
+                for k in range(nsteps):
+                    evs.append(kineto.step(5 + k, E0 + 40 * k, 40))
+                pairs = [(E0 + 10, 2, 3, 100), (E0 + last + 10, 2, 4, 100), (E0 + last + off, ldur, 6, 101)]
+                kept = list(evs[:-1])   # everything but the trailing step annotation
+                for (ts, dur, corr, tid) in pairs:
+                    pe = [kineto.runtime("cudaLaunchKernel", ts, dur, corr, tid=tid), kineto.kernel("kern_a", ts + dur + 1, 3, 7, corr)]
+                    evs += pe
+                    if ts < E0 + last:
+                        kept += pe
+                yield dict(host="cudaLaunchKernel", dev="kernel", timing=["steps", nsteps, off, ldur], bg=0, extras=False,
+                           events=evs, events_kept=kept, rank1=evs, rank1_kept=kept)
 
 
 def magnitude_worlds():
@@ -136,8 +160,10 @@ def check(world) -> Dict[str, Any]:
     from mc import htaenv
 
     viol: List[Any] = []
-    ranks = {0: world["events"], 1: RANK1}
+    ranks = {0: world["events"], 1: world.get("rank1", RANK1)}
     ta, _ = htaenv.load_world(ranks)
+    # what the loader keeps (trailing profiler step trimmed, C12) is what the statistics are about
+    ranks = {0: world.get("events_kept", world["events"]), 1: world.get("rank1_kept", RANK1)}
     execs = 0
     if world["bg"] == 1 and world["timing"][0] != "magnitude":
         # an earlier analysis of the same session: critical path of the window of one launch call (its outcome is not judged here)
@@ -172,7 +198,7 @@ def check(world) -> Dict[str, Any]:
                     viol.append((f"{kind}/{tag}", dict(req=req, rank=r, got=got, expected=e, host=world["host"], dev=world["dev"],
                                                         timing=world["timing"], bg=world["bg"], extras=world["extras"])))
         n_rows = max(n_rows, len(exp[0]))
-    e_t, e_f = expected(world["events"], True), expected(world["events"], False)
+    e_t, e_f = expected(ranks[0], True), expected(ranks[0], False)
     nontrivial = len(e_t) >= 1 and (len(e_t) != len(e_f) or world["dev"] == "ssync" or world["host"] is None or world["dev"] is None or world["bg"] == 3)
     return dict(viol=_dedupe(viol), nontrivial=nontrivial, outcome=(tuple(e_t), tuple(e_f)), execs=execs,
                 extra_transitions=execs - 1)
